@@ -8,7 +8,8 @@ import coqlit as L
 
 ID = "C11"
 COQ_PROPERTY_FILE = "Properties/C11.v"
-COQ_DEPS = ["Common/ListX.v", "Common/ObsHash.v", "Generated/Tables.v", "Model/PropLayer.v", "Proofs/PropLayerProofs.v"]
+COQ_DEPS = ["Common/ListX.v", "Common/ObsHash.v", "Generated/Tables.v", "Model/PropLayer.v", "Proofs/PropLayerProofs.v",
+            "Proofs/PropLayerEmpty.v"]
 COQ_IMPORTS = "From Mesa Require Import Model.PropLayer."
 COQ_CASE_TYPE = "case"
 COQ_RUN = "run_case"
@@ -535,6 +536,8 @@ class _Run:
         self.sh_agents = {}                                                    # agent id -> coord
         self.failures = []
         self.poisoned = False   # a cell attribute was shadowed: the cells no longer work
+        self.empty_ok = True    # the emptiness layer / mask currently agrees with the agents' positions
+        self.empty_reported = False
 
     # ---- access to the implementation
     def gdict(self):
@@ -603,6 +606,8 @@ class _Run:
         kind = op[0]
         # (1) every layer holds what the history wrote (shadow) - through the layer view
         for hi, h in enumerate(self.handles):
+            if self.discrete and hi == 0:
+                continue                      # the built-in "empty" layer: check (4)
             a = self.arr(h)
             if tuple(a.shape) != tuple(self.sh_dims[hi]) or _kind_dt(a) != self.sh_dt[hi]:
                 self.fail(f"{kind}/shape-or-dtype-changed", i,
@@ -613,6 +618,8 @@ class _Run:
                 c, got, exp = bad[0]
                 self.fail(f"{kind}/wrong-values", i,
                           f"after {op}: layer {h.name!r} (handle {hi}) at {c} holds {got}/16ths-or-int, the history's writes give {exp} ({len(bad)} cells differ)")
+                for c, got, _ in bad:         # report a divergence once, then follow the implementation
+                    self.sh[hi][c] = got
         # (2) the grid's table is what the history attached
         got = {CODES.get(n, -6): self.hindex(Lr) for n, Lr in self.gdict().items()}
         if got != self.sh_grid:
@@ -639,16 +646,21 @@ class _Run:
                         break
         # (4) emptiness
         occ = set(self.sh_agents.values())
+        self.empty_ok = True
         if self.discrete:
             e = self.gdict().get("empty")
             if e is not None:
                 bad = [c for c in self.coords if bool(e.data[c]) != (c not in occ)]
-                if bad:
+                self.empty_ok = not bad
+                if bad and not self.empty_reported:
+                    self.empty_reported = True
                     self.fail("empty/mismatch", i,
                               f"after {op}: layer 'empty' at {bad[0]} is {bool(e.data[bad[0]])} but the cell is {'occupied' if bad[0] in occ else 'empty'} (agents at {sorted(occ)})")
         else:
             bad = [c for c in self.coords if bool(self.grid.empty_mask[c]) != (c not in occ)]
-            if bad:
+            self.empty_ok = not bad
+            if bad and not self.empty_reported:
+                self.empty_reported = True
                 self.fail("empty/mismatch", i,
                           f"after {op}: empty_mask{bad[0]} is {bool(self.grid.empty_mask[bad[0]])} but the cell is {'occupied' if bad[0] in occ else 'empty'}")
 
@@ -913,7 +925,7 @@ def run_impl(case):
                 gm = [c for c in R.coords if gm_arr[c]]
                 desc = (f"select_cells(conditions={conds}, extreme_values={exts}, masks={len(masks)}, only_empty={only_empty}) "
                         f"on {case['cls']}{R.dims}")
-                if st == "ok":
+                if st == "ok" and not (only_empty and not R.empty_ok):   # a wrong emptiness layer is reported by empty/mismatch
                     occ = set(R.sh_agents.values())
                     if only_empty and any(c in occ for c in gl + gm):
                         R.fail("select_cells/only_empty-ignored", i,
@@ -1127,7 +1139,7 @@ LEVEL_TEXT = ("Machine-checked Coq theorems over a Gallina transcription of both
               "heap, the grid's layer dict, the per-class PropertyDescriptors and _mesa_properties as separate tables, the emptiness "
               "layer / mask updated by agent placement): for ALL operation histories the cell attribute and the layer read the same "
               "value (C11_one_value), writes through either view and bulk set/modify are read back pointwise through both "
-              "(C11_write_read_*, C11_bulk_*), the emptiness layer / mask equals actual emptiness (C11_empty_layer_true), "
+              "(C11_write_read_*, C11_bulk_*), the emptiness layer / legacy empty mask equals actual emptiness (C11_empty_layer_true, C11_empty_mask_true), "
               "select_cells selects exactly the coordinates satisfying masks, only_empty, conditions and the sequential "
               "highest/lowest criteria (C11_select_exact), list and mask form agree (C11_list_mask_same), and every rejected call "
               "leaves the state unchanged (C18_proplayer_atomic). The model is tied to the code by differential evaluation on "
